@@ -34,6 +34,7 @@ RULE += (' Also: the consumer calling other tools once per item with closures / 
 RULE += (' Also: long lazily produced streams of awaitable jobs (coroutines, future-like objects) bound to their record, through await_each and any_iter.')
 RULE += (' Also: compress with a long lazily produced synchronous selector stream.')
 RULE += (' Also: min / max / nsmallest with async def keys.')
+RULE += (' Also: max / min over a long plateau of ties.')
 ASSUMPTIONS = ["the bound's constant was read off the unchanged tree with slack; a buffering tool grows linearly and "
                "crosses it within a few steps, so the verdict does not depend on the exact constant"]
 EXHAUSTIVE = {"quick": False, "thorough": False}
@@ -277,6 +278,9 @@ def _tools():
     T["sum_bytes"] = (1, 0, lambda S, n: A.sum(S[0], b""), "agg", {"text": "bytes"})
     T["min"] = (1, 1, lambda S, n: A.min(S[0]), "agg", {})
     T["max"] = (1, 1, lambda S, n: A.max(S[0], key=lambda x: x.key), "agg", {})
+    # a long plateau: every item ties with the running extreme - one of them is kept, not all
+    T["max_plateau"] = (1, 1, lambda S, n: A.max(S[0], key=lambda x: 0), "agg", {})
+    T["min_plateau_nokey"] = (1, 1, lambda S, n: A.min(S[0]), "agg", {"runs": 10 ** 9})
     T["max_async_key_descending"] = (1, 1, lambda S, n: A.max(S[0], key=_async_neg_key), "agg", {})
     T["min_async_key_ascending"] = (1, 1, lambda S, n: A.min(S[0], key=_async_key), "agg", {})
     T["sorted_async_key_head"] = (1, 1, lambda S, n: A.nsmallest(S[0], 1, key=_async_key), "agg", {})
